@@ -184,7 +184,7 @@ pub fn watch_set_run_index(idx: Option<u64>) {
 }
 
 fn wall_limit_ms() -> u64 {
-    std::env::var("VERIF_RUN_WALL_LIMIT_S").ok().and_then(|v| v.parse::<u64>().ok()).unwrap_or(300) * 1000
+    std::env::var("VERIF_RUN_WALL_LIMIT_S").ok().and_then(|v| v.parse::<u64>().ok()).unwrap_or(120) * 1000
 }
 
 /// Starts the detached watchdog thread (once per process).
@@ -231,6 +231,29 @@ pub fn start_watchdog() {
                             "note": "not minimised: the run cannot be interrupted; replay regenerates the tape from (seed, run index)",
                         });
                         let _ = std::fs::write(&path, serde_json::to_string_pretty(&doc).unwrap());
+                        // Confirm in a fresh process before this becomes a
+                        // verdict: a frozen or starved process must not be
+                        // mistaken for a loop in the code under test.
+                        let confirmed = std::env::current_exe().ok().and_then(|exe| {
+                            std::process::Command::new(exe)
+                                .arg("replay")
+                                .arg(&path)
+                                .env("VERIF_DIR", &dir)
+                                .stdout(std::process::Stdio::null())
+                                .stderr(std::process::Stdio::null())
+                                .status()
+                                .ok()
+                        });
+                        match confirmed.and_then(|st| st.code()) {
+                            Some(1) => {}
+                            other => {
+                                eprintln!(
+                                    "HARNESS ERROR: run {} exceeded the wall-clock limit of {} s here, but the same run in a fresh process ended with exit code {:?}: not a verdict",
+                                    idx, limit / 1000, other
+                                );
+                                std::process::exit(2);
+                            }
+                        }
                         path
                     } else {
                         m.fallback.clone().unwrap_or_else(|| dir.join("replays").join("unknown.json"))
